@@ -264,8 +264,10 @@ def main(argv=None):
         wall_s=round(time.time() - t0, 2),
         violations=len(real) + (1 if (broken and not real) else 0),
     )
-    os.makedirs(os.path.join(C.OUT, 'evidence'), exist_ok=True)
-    with open(os.path.join(C.OUT, 'evidence', prop + '.json'), 'w') as f:
+    # a development run without the proof re-check must not overwrite the committed evidence
+    evdir = os.path.join(C.WORK, 'evidence-noproofs') if args.no_proofs else os.path.join(C.OUT, 'evidence')
+    os.makedirs(evdir, exist_ok=True)
+    with open(os.path.join(evdir, prop + '.json'), 'w') as f:
         json.dump(ev, f, indent=1, sort_keys=True)
     print('%s %s: %d/%d obligations, %d cases (%d distinct non-trivial), %d violations, %.1fs'
           % (prop, tier, info['discharged'], info['obligations'], out.evaluations,
